@@ -14,6 +14,9 @@ Zones == {"UTC", "+09:00", "-03:30"}
 Keys == IF Tier = "q" THEN {"k1"} ELSE {"k1", "k3072", "k4096"}
 Init == done = FALSE /\ \E n \in Names, g \in Guids, a \in Attrs, p \in Payloads, z \in Zones, k \in Keys :
            cfg = [name |-> n, guid |-> g, attrs |-> a, payload |-> p, tz |-> z, key |-> k]
+(* the RSA signature value itself: one in 256 begins with a zero octet; the harness renames the variable until the update carries such a value *)
+SigInit == done = FALSE /\ \E n \in {"db", "my-var"}, a \in {39, 103}, p \in {"d3", "empty"}, k \in (IF Tier = "q" THEN {"k1"} ELSE {"k1", "k2040", "k3072"}) :
+             cfg = [name |-> n, guid |-> "global", attrs |-> a, payload |-> p, tz |-> "UTC", key |-> k, sig |-> "leadzero"]
 Next == ~done /\ done' = TRUE /\ UNCHANGED cfg
 AllBind == \A c \in Candidates : Binds(c) <=> c = "right"
 Emit == done => PrintT(ToJson(cfg))
